@@ -1,6 +1,7 @@
 import Ruint.Lemmas.FloatTryG
 import Ruint.Lemmas.FloatMsb
 import Ruint.Lemmas.FloatOld
+import Ruint.Lemmas.FloatOrd
 
 /-!
 # C18 — float conversions round predictably and classify special values
@@ -95,7 +96,7 @@ theorem try_from_f32_spec (bits x m : ℕ) (neg : Bool) (e : ℤ)
     (hx : decode b32 x = .fin neg m e) (hnn : neg = false ∨ m = 0) :
     (floorHalf m e < 2 ^ bits → tryFromF32 bits x = .ok (floorHalf m e))
     ∧ (2 ^ bits ≤ floorHalf m e → ∃ w, tryFromF32 bits x = .tooLarge w) := by
-  obtain ⟨h64, m', e', hd, hfl, hz⟩ := f32ToF64_fin x m neg e hx
+  obtain ⟨h64, m', e', hd, hfl, hz, _⟩ := f32ToF64_fin x m neg e hx
   have hnn' : neg = false ∨ m' = 0 := by
     rcases hnn with h | h
     · exact Or.inl h
@@ -109,6 +110,23 @@ theorem try_from_f32_nan (bits x : ℕ) (h : decode b32 x = .nan) : tryFromF32 b
   unfold tryFromF32
   apply try_from_f64_nan
   unfold f32ToF64; rw [h]; decide +kernel
+
+/-- every `f32` below zero ↦ `ValueNegative`. -/
+theorem try_from_f32_negative (bits x : ℕ)
+    (h : (∃ m e, decode b32 x = .fin true m e ∧ m ≠ 0) ∨ decode b32 x = .inf true) :
+    ∃ w, tryFromF32 bits x = .negative w := by
+  unfold tryFromF32
+  apply try_from_f64_negative
+  rcases h with ⟨m, e, hx, hm⟩ | hx
+  · obtain ⟨_, m', e', hd, _, _, hnz⟩ := f32ToF64_fin x m true e hx
+    exact Or.inl ⟨m', e', hd, hnz hm⟩
+  · exact Or.inr (f32ToF64_inf x true hx)
+
+/-- `f32` `+∞ ↦ ValueTooLarge`. -/
+theorem try_from_f32_pos_inf (bits : ℕ) : tryFromF32 bits b32.infBits = .tooLarge 0 := by
+  have : f32ToF64 b32.infBits = b64.infBits := by decide +kernel
+  unfold tryFromF32
+  rw [this, try_from_f64_pos_inf]
 
 /-- the saturating form: `MAX` above the range, `0` for negatives and NaN, else the rounded value;
     i.e. `min ⌊x + 1/2⌋ (2^bits - 1)` on finite non-negative input. -/
@@ -206,10 +224,11 @@ theorem to_float_exact_small (f : Fmt) (hw : f.Wide) (v : ℕ) (hL : bitLen v < 
     (v = 0 → toFloatV f v = 0) ∧ (0 < v → IsVal (decode f (toFloatV f v)) v) :=
   ⟨fun h => by subst h; exact toFloatV_zero f hw.1, fun h => toFloatV_short f hw v h hL⟩
 
-/-- the conversion is monotone in the value (as bit patterns of non-negative floats, whose order is the
-    order of the floats; `+∞` is the largest). -/
-theorem to_float_monotone (f : Fmt) (hw : f.Wide) (v w : ℕ) (h : v ≤ w) : toFloatV f v ≤ toFloatV f w :=
-  toFloatV_mono f hw v w h
+/-- the conversion is monotone in the value: as bit patterns, and in the IEEE order `<=` of the floats
+    they denote (`+∞` is the largest; the result is never NaN). -/
+theorem to_float_monotone (f : Fmt) (hw : f.Wide) (v w : ℕ) (h : v ≤ w) :
+    toFloatV f v ≤ toFloatV f w ∧ (decode f (toFloatV f v)).le (decode f (toFloatV f w)) = true :=
+  ⟨toFloatV_mono f hw v w h, toFloatV_mono_le f hw v w h⟩
 
 /-- `most_significant_bits` as the code computes it on the limbs (`rposition`, `leading_zeros`, the two top
     limbs fused) is the top-64-bits decomposition of the value, for every limb count. -/
